@@ -22,7 +22,7 @@ FLAVOURS = {
     "h8k":    dict(c=["-O2"], d=["-DIGZIP_HIST_SIZE=8*1024"], asm=True),
     "lht":    dict(c=["-O2"], d=["-DLONGER_HUFFTABLE"], asm=True),
     "lgt":    dict(c=["-O2"], d=["-DGF_LARGE_TABLES"], asm=True),
-    "noarch": dict(c=["-O1", "-g", "-fsanitize=address,undefined", "-fno-sanitize-recover=undefined",
+    "noarch": dict(c=["-O1", "-g", "-fsanitize=address,undefined", "-fno-sanitize=alignment", "-fno-sanitize-recover=undefined",
                       "-fno-omit-frame-pointer"], d=[], asm=False),
     "tsan":   dict(c=["-O1", "-g", "-fsanitize=thread"], d=[], asm=True),
 }
